@@ -41,6 +41,9 @@ type c19 struct {
 	steps  []uint64  // solo steps of compile-run
 	files  []string  // file holding pool[i].Text
 	worldR string
+	// monitorOff: the tree uses synchronisation the own HB monitor does not
+	// model (atomics, sync.Map, sync.Pool); the race detector still decides.
+	monitorOff bool
 }
 
 func init() { register(&c19{}) }
@@ -92,6 +95,10 @@ func (c *c19) Init(env *Env) error {
 	corp, err := loadCorpus(env.VerifDir)
 	if err != nil {
 		return err
+	}
+	var inv inventoryFile
+	if readJSON(env.Inventory, &inv) == nil && len(inv.Unmodelled) > 0 {
+		c.monitorOff = true
 	}
 	c.worldR = filepath.Join(env.ScratchS, fmt.Sprintf("c19files-%d", os.Getpid()))
 	os.MkdirAll(c.worldR, 0755)
@@ -354,6 +361,10 @@ func (c *c19) Run(ctx *RunCtx) *RunResult {
 	}
 
 	// oracle (c): own monitor
+	if c.monitorOff {
+		ctx.Count("hb_monitor_disabled_unmodelled_sync", 1)
+		mraces = nil
+	}
 	for _, r := range mraces {
 		addV("hb-monitor", "monitor:"+r, "unordered conflicting accesses to a package-level variable: "+r)
 	}
